@@ -80,8 +80,9 @@ class Scenario:
         self.cost = {}        # per-op event counters (C14/C15)
         self.subject = None
         self.deferred = []
+        self.interrupted = set()
         self.orphan_stack = []
-        self.stale = False    # a recorded handle was removed without unadopt (C13 histories)
+        self.stale = bool(self.opts.get('stale'))    # a recorded handle was removed without unadopt (C13 histories)
 
     # ------------------------------------------------------------ helpers
     def body(self, sh, tr, m):
@@ -254,6 +255,10 @@ class Scenario:
                                     self.model_values(None))
         if 'C01' in self.oracles:
             self.check_not_reachable(idx, 'destructor ran')
+        if 'C13' in self.oracles:
+            self.check_not_reachable(idx, 'destructor ran', prop='C13')
+        if 'C12' in self.oracles:
+            self.check_not_reachable(idx, 'destructor ran', prop='C12')
         oi.destroyed = True
 
     def on_dealloc(self, E, heap_id):
@@ -339,7 +344,7 @@ class Scenario:
         for i in objs:
             c = False
             for name, x in self.handles.items():
-                if x['kind'] in ('rc', 'raw') and x['obj'] == i:
+                if (x['kind'] == 'rc' or (x['kind'] == 'raw' and x.get('counts', True))) and x['obj'] == i:
                     c = True
             if self.objs[i].extra_real:
                 c = True
@@ -416,14 +421,15 @@ class Scenario:
         E.solver.pop()
         return out
 
-    def check_not_reachable(self, idx, what):
+    def check_not_reachable(self, idx, what, prop='C01'):
         r = self.reach_formula(idx)
+        self.subject = [idx]
         if r is False:
             return
         if r is True:
-            raise Violation('C01', 'destroyed-reachable', '%s for object %d which is reachable from a held handle' % (what, idx),
+            raise Violation(prop, 'destroyed-reachable', '%s for object %d which is reachable from a held handle' % (what, idx),
                             self.model_values(None))
-        self.require(z3.Not(r), 'C01', 'destroyed-reachable',
+        self.require(z3.Not(r), prop, 'destroyed-reachable',
                      '%s for object %d which is reachable from a held handle' % (what, idx))
 
     # ------------------------------------------------------------ ops
@@ -682,7 +688,7 @@ class Scenario:
             self.obs(op, self.conc(r))
             if self.oracles & {'C05', 'C06'} and x['obj'] is not None:
                 oi = self.objs[x['obj']]
-                if oi.destroyed or oi.unwrapped:
+                if oi.destroyed or oi.unwrapped or oi.idx in self.interrupted:
                     self.require(s_eq(r, 0), 'C05', 'weak-strong-count-dead', 'Weak::strong_count of destroyed object %d is not 0' % oi.idx)
                 else:
                     self.require(s_eq(r, self.holders(oi.idx)), 'C06', 'weak-strong-count',
@@ -693,7 +699,7 @@ class Scenario:
             self.obs(op, self.conc(r))
             if self.oracles & {'C05', 'C06'} and x['obj'] is not None:
                 oi = self.objs[x['obj']]
-                if oi.destroyed or oi.unwrapped:
+                if oi.destroyed or oi.unwrapped or oi.idx in self.interrupted:
                     self.require(s_eq(r, 0), 'C05', 'weak-weak-count-dead', 'Weak::weak_count of destroyed object %d is not 0' % oi.idx)
                 else:
                     self.require(s_eq(r, self.weak_holders(oi.idx)), 'C06', 'weak-weak-count',
@@ -725,9 +731,9 @@ class Scenario:
                 raise UB('uninit-read', 'Deref of handle %s yields a moved-out value' % op['h'])
             self.obs(op, v.id if isinstance(v, TVal) else repr(v))
             pl = self.payloads.get(v.id) if isinstance(v, TVal) else None
-            if self.oracles & {'C01', 'C13'} and not in_dtor:
+            if self.oracles & {'C01', 'C13', 'C12'} and not in_dtor:
                 if pl is None or pl.dropped:
-                    raise Violation('C01', 'deref-destroyed', 'Deref of held handle %s reaches a destroyed value' % op['h'],
+                    raise Violation('C13' if 'C13' in self.oracles else ('C12' if 'C12' in self.oracles else 'C01'), 'deref-destroyed', 'Deref of held handle %s reaches a destroyed value' % op['h'],
                                     self.model_values(None))
         elif k == 'try_unwrap':
             x = self.h(op['h'], 'rc')
@@ -824,16 +830,29 @@ class Scenario:
         elif k == 'on_drop_panic':
             self.ondrop_panic.add(op['obj'])
         elif k == 'catch':
+            dropped_before = set(pid for pid, pl in self.payloads.items() if pl.dropped)
             try:
                 for o in op['do']:
                     self.run_op(o, in_dtor)
                     self.after_op(o)
                 self.obs(op, 'ok')
+                if 'C11' in self.oracles:
+                    ran = [pid for pid in self.ondrop_panic if self.payloads[pid].dropped and pid not in dropped_before]
+                    if ran:
+                        raise Violation('C11', 'panic-swallowed', 'the destructor of value %s panicked but the panic did not reach the caller of drop' % ran[0])
             except Panic as p:
                 self.obs(op, 'panicked')
                 self.last_panic = p
-                if 'expect_panic' in op and not op['expect_panic']:
-                    raise
+                if 'C11' in self.oracles:
+                    if not getattr(p, 'where', '') == 'dtor':
+                        v = Violation('C11', 'library-panic', 'a panic other than the scripted destructor panic escaped: %s' % p.msg, self.model_values(None))
+                        v.stack = getattr(p, 'stack', [])
+                        raise v
+                    orp = getattr(self, 'last_orphan', None)
+                    if orp is not None and orp[1] is not False:
+                        S, cond = orp
+                        if cond is True or not self.E.check(z3.Not(cond)):
+                            self.interrupted |= set(S)
         elif k == 'set_strong' or k == 'set_weak':
             # unit harness: arbitrary counter value (no validity assumption)
             x = self.h(op['h'], 'rc')
@@ -855,6 +874,14 @@ class Scenario:
                     E.drop_in_place(self.tmp(self.make_weak(oi)), WEAK, None)
                 else:
                     oi.wextra = 0
+        elif k in ('cost_clone', 'cost_drop'):
+            self.run_op(dict(op, op=k[5:], cost=True), in_dtor)
+        elif k == 'drop_any':
+            x = self.h(op['h'])
+            if x['kind'] == 'val':
+                self.run_op({'op': 'drop_value', 'v': op['h']})
+            else:
+                self.run_op({'op': 'drop', 'h': op['h']})
         elif k == 'drop_if':
             if op['h'] in self.handles:
                 self.run_op({'op': 'drop', 'h': op['h']})
@@ -900,6 +927,12 @@ class Scenario:
                 raise Violation('C05', 'upgrade-dangling', 'upgrade of Weak::new() returned a handle')
             return
         oi = self.objs[x['obj']]
+        if oi.idx in self.interrupted and not oi.destroyed:
+            # member of a group whose teardown was interrupted by a panic: must keep reporting dead (C11)
+            if got_some:
+                raise Violation('C11', 'alive-after-interrupted-teardown', 'after a destructor panic interrupted the teardown of its group, Weak::upgrade returned a handle to member %d' % oi.idx,
+                                self.model_values(None))
+            return
         if self.dtor_stack and not (oi.destroyed or oi.unwrapped):
             # inside a destructor the target may be a doomed peer. Black-box rule: a handle that upgrade returns
             # must keep its object alive for as long as it is held (checked when a destructor starts, see
@@ -931,6 +964,8 @@ class Scenario:
         if 'C03' in self.oracles:
             self._orphan = orp
         self.orphan_stack.append(orp if orp is not None else (set(), False))
+        if len(self.orphan_stack) == 1:
+            self.last_orphan = orp
 
     def alive(self, i):
         o = self.objs[i]
@@ -1038,36 +1073,58 @@ class Scenario:
 
     def check_collected(self):
         """C03: after a drop, every group that became orphaned must be gone; every object with no strong handle too"""
-        live = [i for i, o in self.objs.items() if not o.destroyed and not o.unwrapped and not o.freed]
+        live = [i for i, o in self.objs.items() if not o.destroyed and not o.unwrapped and not o.freed and i not in self.interrupted]
         for i in live:
             hold = self.holders(i)
             self.require(s_not(s_eq(hold, 0)), 'C03', 'zero-count-not-destroyed',
                          'object %d has no strong handle left after op %d but was not destroyed' % (i, self.op_index), subject=[i])
         orp = getattr(self, '_orphan', None)
         self._orphan = None
-        if orp is not None:
-            S, cond = orp
-            survivors = [y for y in S if self.alive(y)]
-            if survivors and cond is not False:
-                self.subject = sorted(S)
+        if orp is not None and not self.stale:
+            S, cond0 = orp
+            survivors = [y for y in S if self.alive(y) and y not in self.interrupted]
+            done = set()
+            for y in survivors:
+                if y in done:
+                    continue
+                # evaluated on the ledger as it is when the operation has returned (destructors may have
+                # created or removed handles re-entrantly)
+                r = self.orphan_condition(y)
+                if r is None:
+                    continue
+                S2, cond = r
+                done |= S2
+                if cond is False:
+                    continue
+                self.subject = sorted(S2)
+                msg = 'after op %d the adopted group %s is orphaned (every strong handle to its members is a recorded adoption held inside the group) but was not destroyed' % (self.op_index, sorted(S2))
                 if cond is True:
-                    raise Violation('C03', 'orphan-not-collected',
-                                    'op %d orphaned the adopted group %s but member(s) %s were not destroyed' % (self.op_index, sorted(S), survivors),
-                                    self.model_values(None))
-                self.require(z3.Not(cond), 'C03', 'orphan-not-collected',
-                             'op %d orphaned the adopted group %s but member(s) %s were not destroyed' % (self.op_index, sorted(S), survivors))
+                    raise Violation('C03', 'orphan-not-collected', msg, self.model_values(None))
+                self.require(z3.Not(cond), 'C03', 'orphan-not-collected', msg)
 
     def at_end(self):
         if self.opts.get('expect_all_freed'):
+            # C04 speaks about destroyed objects only: their block (once no Weak remains) and their bookkeeping
+            # must be released; containers that belong to objects which are still alive are not leaks
+            owned = set()
             for i, oi in self.objs.items():
-                if not oi.destroyed and not oi.unwrapped:
-                    self.subject = [j for j, o in self.objs.items() if not o.destroyed and not o.unwrapped]
-                    raise Violation('C04', 'not-destroyed', 'object %d is still alive at the end of a history that dropped every handle' % i,
-                                    self.model_values(None))
+                o = self.E.heap[oi.box]
+                if o.live and not oi.destroyed and not oi.unwrapped:
+                    owned.add(oi.box)
+                    l = self.field(i, 2)
+                    if isinstance(l, Agg) and len(l.fields) > 1 and isinstance(l.fields[1], Agg):
+                        own = l.fields[1].fields[0]
+                        if isinstance(own, Own):
+                            owned.add(own.obj)
             for oid, o in self.E.heap.items():
-                if o.live and o.kind in ('box', 'heap', 'map', 'vec'):
+                if o.live and o.kind in ('box', 'heap', 'map', 'vec') and oid not in owned:
                     what = self.box2obj.get(oid)
-                    raise Violation('C04', 'leak', 'heap object #%d (%s%s) is still allocated after every object was destroyed and every Weak dropped'
+                    if what is not None:
+                        c = self.weak_holders(what)
+                        if not (isinstance(c, int) and c == 0):
+                            continue     # Weak handles still exist (history did not drop them): the bare block may stay
+                        self.subject = [what]
+                    raise Violation('C04', 'leak', 'heap object #%d (%s%s) is still allocated although its object was destroyed and no Weak handle to it remains'
                                     % (oid, o.kind, o.meta.get('label', '') if what is None else ' RcBox of object %d' % what),
                                     self.model_values(None))
 
